@@ -42,7 +42,7 @@ type stallOpts struct {
 func runStall(k *mon.Case, ps *procState) {
 	r := k.Rand
 	ps.base = runtime.NumGoroutine()
-	o := stallOpts{Family: k.Family, Inbound: r.Bool(), Request: []string{"mempool", "getblocks", "getdata"}[r.Intn(3)] /* (getheaders has a 90 s deadline) */,
+	o := stallOpts{Family: k.Family, Inbound: r.Bool(), Request: []string{"mempool", "getblocks", "getdata"}[r.Intn(3)], /* (getheaders has a 90 s deadline) */
 		Chatter: r.Bool(), Queued: r.Intn(6)}
 	if r.Chance(2, 3) {
 		o.HeldPing = 17 + r.Intn(12) // sent after the first stall tick, held across the one that disconnects
